@@ -169,7 +169,7 @@ PROPS["C03"] = dict(
         dict(pkg=FE, run="^VerifC04_OptionsBundled_p1$", tiers=["quick", "thorough"], replay="model", preempt=0, timeout=1500, reach=["stops-first"]),
         dict(pkg=FE, run="^VerifC04_OptionsBundled_p3$", tiers=["quick", "thorough"], replay="model", preempt=0, timeout=1500, reach=["stops-first"]),
         dict(pkg=PT, run="^VerifC03_Trace_Quick5$", tiers=["thorough"], replay="model", timeout=3000, max_paths=3000000),
-        dict(pkg=PT, run="^VerifC03_Trace_Thorough$", tiers=["thorough"], replay="model", timeout=20000, max_paths=30000000),
+        dict(pkg=PT, run="^VerifC03_Trace_Thorough$", tiers=["thorough"], replay="model", timeout=7200, max_paths=30000000),
     ],
 )
 
@@ -204,13 +204,13 @@ PROPS["C04"] = dict(
     level_note=SYMEX_NOTE + KERN_NOTE + "That Linux implements these calls as documented is outside.",
     explanation="Start/forkAndExecInChild/syncWithChild executed symbolically as two model processes; oracle = 15-line specification of the security state per option set.",
     bounds={'runner-level construction': 'filter of length 0 (nil or empty), 1, 2; sync callback present/absent; uid 0/1', 'refused id maps': 'one failure (any errno) at the open or write of uid_map/gid_map/setgroups', "options": "full cross product of {credential, drop-caps, no-new-privs, seccomp, ptrace, stop-before-seccomp, sync callback, late cgroup unshare, NoSetGroups} x all clone-flag words x "
-                       "orthogonal options {groups, gid map, cgroup fd, exec fd, workdir, host/domain name, pivot root, ctty} all-off/all-on (quick+thorough); thorough: orthogonal options independent",
+                       "orthogonal options {groups, gid map, cgroup fd, exec fd, workdir, host/domain name, pivot root, ctty} all-off/all-on (quick and thorough; the run with independent orthogonal options did not finish in 40 min and is not registered)",
             "schedules": "parent/child interleaving fixed to run-until-block (preemption bound 0)", "faults": "none (see C07)"},
     outside=["option sets the kernel rejects for an unprivileged host (host is root here)", "mount list / rlimit list contents (C05/C08)", "real kernel behaviour"],
     assumptions=["host process is root with all capabilities", "K-* contract clauses"],
     harnesses=[dict(pkg=FE, run="^VerifC04_OptionsBundled_p%d$" % i, replay="model", preempt=0, timeout=1500,
                     reach=["execed", "drop-caps", "nnp", "filter", "setgroups", "into-cgroup", "fexecve"] + (["stops-first"] if i else []) + ["sync"]) for i in range(4)] +
-              [dict(pkg=FE, run="^VerifC04_Options$", tiers=["thorough"], replay="model", preempt=0, timeout=30000, max_paths=30000000),
+              [
                # the kernel refusing an id-map file stops the launch: no program in a user namespace without its maps
                dict(pkg=FE, run="^VerifC04_IdMapRefused$", replay="model", preempt=0, timeout=1500, reach=["start-error"]),
                # runner level: how unshare.Runner.Run builds the launcher configuration (filter iff given, nnp and namespaces always)
@@ -226,13 +226,13 @@ PROPS["C06"] = dict(
                 "(checked with and without vfork memory sharing)."),
     level_note=SYMEX_NOTE + KERN_NOTE + "Assumption: descriptors of the launching process other than its stdio are close-on-exec (Go's convention under ForkLock).",
     explanation="prepareFds + pass 1/2 + Start executed symbolically on symbolic descriptor numbers; oracle on the model process' table at exec.",
-    bounds={"list length": "<=2 (quick) / <=3 (thorough)", "descriptor numbers": "< 6 (quick) / < 8 (thorough) or the close marker; socketpair numbers < 64",
+    bounds={"list length": "<=2 (quick and thorough, all four exec/sync partitions) / <=3 (thorough, partitions without an exec descriptor; with one the run did not finish in 40 min and is not registered)", "descriptor numbers": "< 6 (quick) / < 8 (thorough) or the close marker; socketpair numbers < 64",
             "exec/cgroup fd": "present/absent, any number in range", "vfork": "both clone variants"},
     outside=["descriptors opened concurrently by other threads (C17)", "lists longer than the bound"],
     assumptions=["non-listed descriptors >= 3 of the launcher are close-on-exec"],
     harnesses=[dict(pkg=FE, run="^VerifC06_Files2_p%d$" % i, tiers=["quick", "thorough"], replay="model", preempt=0, timeout=1500,
                     reach=["execed", "marker"] + (["execfile"] if i & 1 else [])) for i in range(4)] +
-              [dict(pkg=FE, run="^VerifC06_Files3_p%d$" % i, tiers=["thorough"], replay="model", preempt=0, timeout=30000, max_paths=30000000) for i in range(4)],
+              [dict(pkg=FE, run="^VerifC06_Files3_p%d$" % i, tiers=["thorough"], replay="model", preempt=0, timeout=3600, max_paths=30000000) for i in (0, 2)],
 )
 
 PROPS["C07"] = dict(
@@ -248,7 +248,10 @@ PROPS["C07"] = dict(
             "schedules": "run-until-block (preemption bound 0)"},
     outside=["EINTR storms, partial writes on the sync socket", "relay of the sync gate beyond one operation per history"],
     assumptions=["K-* contract clauses"],
-    harnesses=[dict(pkg=FE, run="^VerifC07_Faults_p%d$" % i, replay="model", preempt=0, timeout=1500, reach=["start-error", "start-ok"] + (["callback-error"] if i & 2 else [])) for i in range(4)],
+    harnesses=[dict(pkg=FE, run="^VerifC07_Faults_p%d$" % i, replay="model", preempt=0, timeout=1500, reach=["start-error", "start-ok"] + (["callback-error"] if i & 2 else [])) for i in range(4)] + [
+        # container-side relay of the sync gate (refusal before / after exec, also of a program that never ends by itself)
+        dict(pkg=CT, run="^VerifC10_Ops1$", tiers=["quick", "thorough"], replay="model", preempt=1, timeout=1500, reach=["final-ping"]),
+    ],
 )
 
 CT_NOTE = ("Both real endpoints (host `container` with sendLoop/recvLoop, init `containerServer` with serve/sendLoop/recvLoop/waitLoop and every handler) are built directly and run as "
@@ -265,7 +268,7 @@ PROPS["C10"] = dict(
     level_note=SYMEX_NOTE + CT_NOTE,
     technique="bounded model checking of the real endpoints (symbolic data via z3, delay-bounded schedule enumeration)",
     explanation="container.{Ping,Open,Delete,Symlink,Reset,Execve,waitForDone,...} and containerServer.{serve,handle*,...} executed as threads over a model link.",
-    bounds={'container init death': 'once, at any transport event around a Ping / Open / Execve', "history length": "1 operation + final Ping (quick); 2 operations (thorough)", "delay bound": "1 (quick) / 2 (thorough)", "transport loss": "at most one, at any send/receive",
+    bounds={'container init death': 'once, at any transport event around a Ping / Open / Execve', "history length": "1 operation + final Ping at delay bound 1 (quick and thorough); 2 operations at delay bound 0 (thorough)", "delay bound": "see history length", "transport loss": "at most one, at any send/receive",
             "Execve": "argv empty/non-empty, lookup fails, clone fails, child step fails, sync callback nil/ok/refusing, sync before/after exec, exec fails after sync, program ends with any status"},
     outside=["gob's real encoding (C19 models the stream abstractly)", "real timing of the ping deadline (the deadline may expire whenever it is armed while a program runs)"],
     assumptions=["C07 contract of forkexec.Start", "K-SOCK SEQPACKET contract"],
@@ -277,9 +280,7 @@ PROPS["C10"] = dict(
         dict(pkg=CT, run="^VerifC10_InitDies$", replay="model", preempt=1, timeout=1500, reach=["init-killed", "call-returned", "call-failed"]),
         # another operation on the same environment while a program runs (its command must never be taken for the run's kill message)
         dict(pkg=CT, run="^VerifC17_OpDuringExecve$", replay="model", preempt=1, timeout=1500, reach=["both-returned", "program-ran"]),
-        dict(pkg=CT, run="^VerifC10_Ops2$", tiers=["thorough"], replay="model", preempt=1, timeout=30000, max_paths=50000000),
-        # container-side relay of the sync gate (refusal before / after exec, also of a program that never ends by itself)
-        dict(pkg=CT, run="^VerifC10_Ops1$", tiers=["quick", "thorough"], replay="model", preempt=1, timeout=1500, reach=["final-ping"]),
+        dict(pkg=CT, run="^VerifC10_Ops2$", tiers=["thorough"], replay="model", preempt=0, timeout=3600, max_paths=50000000),
     ],
 )
 
@@ -320,13 +321,13 @@ PROPS["C12"] = dict(
     level_note=SYMEX_NOTE + CT_NOTE,
     technique="bounded model checking with descriptor/process/thread accounting",
     explanation="c12 harness over container host/init endpoints; C03 harness for the tracer.",
-    bounds={'Build': 'each later step (temporary root, work directory, configuration, transport) failing after the container was started', 'program shape': 'one or two processes', "history": "1 operation (quick), 2 (thorough)", "delay bound": "1"},
+    bounds={'Build': 'each later step (temporary root, work directory, configuration, transport) failing after the container was started', 'program shape': 'one or two processes', "history": "1 operation at delay bound 1 (quick and thorough), 2 operations at delay bound 0 (thorough)", "delay bound": "see history"},
     outside=["real process trees that daemonise (kernel clause: SIGKILL to -1 / pid-ns teardown)", "startContainer itself (exec.Cmd, socket pair) and the descriptors it creates"],
     assumptions=["K-PROC: kill(-1,SIGKILL) in a pid namespace kills every process but init"],
     harnesses=[
         dict(pkg=CT, run="^VerifC12_Ops1$", tiers=["quick", "thorough"], replay="model", preempt=1, timeout=1500, reach=["settled", "program-ran"]),
         dict(pkg=CT, run="^VerifC12_Ops1Cancel$", tiers=["quick", "thorough"], replay="model", preempt=1, timeout=1500, reach=["settled", "program-ran"]),
-        dict(pkg=CT, run="^VerifC12_Ops2$", tiers=["thorough"], replay="model", preempt=1, timeout=30000, max_paths=50000000),
+        dict(pkg=CT, run="^VerifC12_Ops2$", tiers=["thorough"], replay="model", preempt=0, timeout=3600, max_paths=50000000),
         dict(pkg=FE, run="^VerifC07_Faults_p0$", tiers=["quick", "thorough"], replay="model", preempt=0, timeout=1500, reach=["start-error"]),
         dict(pkg=FE, run="^VerifC07_Faults_p2$", tiers=["quick", "thorough"], replay="model", preempt=0, timeout=1500, reach=["start-error"]),
         dict(pkg=US, run="^VerifC11_UnshareCancel$", tiers=["quick", "thorough"], replay="model", preempt=2, reach=["context-outlives-run"]),
@@ -391,7 +392,7 @@ PROPS["C17"] = dict(
     harnesses=[
         dict(pkg=CT, run="^VerifC17_TwoCallers$", replay="model", preempt=2, timeout=1500, reach=["both-returned"]),
         dict(pkg=CT, run="^VerifC17_ThreeCallers$", tiers=["quick"], replay="model", preempt=1, timeout=1500, reach=["all-returned"]),
-        dict(pkg=CT, run="^VerifC17_ThreeCallers$", tiers=["thorough"], replay="model", preempt=2, timeout=20000, max_paths=20000000),
+        dict(pkg=CT, run="^VerifC17_ThreeCallers$", tiers=["thorough"], replay="model", preempt=2, timeout=3600, max_paths=20000000),
         # Ping racing a running program in the same environment (Ping's socket deadline may expire while it is armed and the program still runs)
         dict(pkg=CT, run="^VerifC17_PingDuringExecve$", replay="model", preempt=1, timeout=1500, reach=["both-returned", "program-ran"]),
         dict(pkg=CT, run="^VerifC17_OpDuringExecve$", replay="model", preempt=1, timeout=1500, reach=["both-returned", "program-ran"]),
